@@ -7,7 +7,7 @@
 From Coq Require Import String List NArith ZArith Bool.
 From J5V.lib Require Import Text Outcome.
 From J5V.model Require Import BclLexer BclParser BclFmt.
-From J5V.proofs Require Import BclPosProofs BclLexerProofs BclParserProofs BclFmtProofs BclFmtLitProofs BclReflowProofs.
+From J5V.proofs Require Import BclPosProofs BclLexerProofs BclParserProofs BclFmtProofs BclFmtLitProofs BclReflowProofs BclLexLitProofs BclFmtSeqProofs BclFragWfProofs BclFmtLineProofs BclWalkBackProofs.
 Import ListNotations.
 
 (* ---- the position-free document of a fragment list -------------------------------------------- *)
@@ -123,6 +123,59 @@ Theorem C09_int_separation : forall c r tail s,
 Proof. exact relex_int. Qed.
 Print Assumptions C09_int_separation.
 
+(* token level, for every token of every kind: whatever NextToken emits (from any state of any
+   input) is read back, type and literal, from the text tokenSource renders for it, whenever the
+   text that follows cannot extend it ([sep_ok]: a regex is not followed by '/', a comment or
+   description ends the line, an identifier is not followed by an identifier rune, a number is
+   not followed by a digit or a dot) *)
+Theorem C09_token_roundtrip : forall fuel s t s' tail s2,
+  next_token_fuel fuel s = (LTok t, s') -> sep_ok (ty t) tail ->
+  rest s2 = token_source (mkTok (ty t) (lit t) pos0 pos0) ++ tail ->
+  lexes_to s2 (ty t) (lit t) tail.
+Proof. exact token_roundtrip. Qed.
+Print Assumptions C09_token_roundtrip.
+
+(* sequence level: a line made of rendered tokens and single spaces, in which every token has a
+   literal of its kind and cannot be extended by what follows it, is read back token by token *)
+Theorem C09_sequence_relex : forall items tail s, items_ok items tail -> ends_with_tok items ->
+  rest s = render_items items ++ tail ->
+  exists s', lex_run s (item_toks items) s' /\ rest s' = tail.
+Proof. exact items_relex. Qed.
+Print Assumptions C09_sequence_relex.
+
+(* fragment level, first half: everything the formatter renders is renderable — each token kept in a
+   fragment has a literal of its kind, references are non-empty identifier lists, tag values are
+   strings, a comment / description used as a value ends its statement (never inside an array,
+   never followed by a trailing comment), header descriptions exclude brace and comment *)
+Theorem C09_fragments_renderable : forall data fs, collect_fragments data = Ok fs -> Forall frag_lx fs.
+Proof. exact collect_fragments_lx. Qed.
+Print Assumptions C09_fragments_renderable.
+
+(* line level: for every header, assignment, comment and closing brace the walker can build, the
+   line the formatter writes (indentation, the rendered tokens with the formatter's own spacing,
+   the trailing comment, the newline) is read back as exactly the tokens of that fragment followed
+   by the EOL: adjacent emitted tokens never fuse *)
+Theorem C09_line_relex : forall f n REST s,
+  frag_lx f -> (forall d, f <> FDesc d) ->
+  rest s = tabs n ++ frag_line_text f ++ 10%N :: REST ->
+  exists s', lex_run s (item_toks (frag_items f) ++ [(EOL, [10%N])]) s' /\ rest s' = REST.
+Proof. exact fragment_line_relex. Qed.
+Print Assumptions C09_line_relex.
+
+(* fragment level, walker half: walking any token list (whatever its positions) whose types and
+   literals are the canonical tokens of renderable fragments and description blocks, each line
+   ended by an EOL, optionally preceded by a blank line, rebuilds fragments with the same
+   documents — same types, tags, marks, qualifiers, keys, operators, values, comments *)
+Theorem C09_walk_back : forall es fuel s, stream_ok es -> pt s = stream es ->
+  (length (wrest s) < fuel)%nat ->
+  exists fs, walk_fragments_loop fuel true s = WalkOk fs [] /\
+             map (fun f => match f with FDesc d => DD (dvalue d) | _ => fdoc_of f end) fs
+             = map (fun be => entry_doc (snd be)) es.
+Proof.
+  intros es fuel s H1 H2 H3. destruct (walk_stream_back es fuel s H1 H2 H3) as (fs & A & _ & B). eauto.
+Qed.
+Print Assumptions C09_walk_back.
+
 (* idempotence of the description re-flow (finding 22 lived here): feeding the re-flowed lines back
    gives the same lines, for every text and every width (also negative) *)
 Theorem C09_reflow_fixed_point : forall maxw input,
@@ -130,8 +183,9 @@ Theorem C09_reflow_fixed_point : forall maxw input,
 Proof. exact reflow_fixed_point. Qed.
 Print Assumptions C09_reflow_fixed_point.
 
-(* PARTIAL: C09_full_statement itself is not proved.  Missing: the fragment-level composition
-   (walk (lex (render fs)) = fs up to positions, from the literal and separation lemmas above),
+(* PARTIAL: C09_full_statement itself is not proved.  Missing: the lines of description blocks and the
+   concatenation of the rendered lines into one file whose tokens are the canonical stream (so that
+   C09_line_relex and C09_walk_back compose), preservation of description paragraphs by the re-flow,
    and that rendering is a normal form on its own image (idempotence of the whole formatter; the
    description re-flow part is C09_reflow_fixed_point).  Those clauses are evaluated on every run by the direct
    oracle (re-parse, document comparison, format twice) and the byte-exact correspondence of Fmt. *)
